@@ -258,7 +258,11 @@ def check_inv(ctx, cc):
 # ---- simulate with a map ----------------------------------------------------------------------------------
 
 def strat_sim(ctx):
-    return st.fixed_dictionaries({"case": cg_case(max_cells=12, with_sim=True), "identity": st.booleans(), "steps": st.integers(2, 15)})
+    return st.fixed_dictionaries({"case": cg_case(max_cells=12, with_sim=True), "identity": st.booleans(), "steps": st.integers(2, 15),
+                                  # every other keyword of the run has to reach the coarse-grained run as well
+                                  "engine": st.sampled_from(["euler", "euler", "tauleap", "gillespie"]),
+                                  "mode": st.sampled_from(["default", "default", "none", "redist", "Poisson", "auto"]),
+                                  "seed": st.integers(0, 2 ** 31 - 1)})
 
 
 def stable_dt(x, sc):
@@ -287,6 +291,9 @@ def check_sim(ctx, cc):
     from vlib.ratelaw import tame_dt
     dt = tame_dt(model, model.flags())
     N = cc["steps"]
+    eng, mode = cc.get("engine", "euler"), cc.get("mode", "default")
+    if eng != "euler" or mode != "default":
+        return check_sim_first_sample(ctx, cc, c, system, model, groups, x, dt, eng, mode)
     kw = dict(sampling_policy="on_iteration", time_step="%r s" % dt, t_max="%r s" % (dt * (N + 0.5)))
     cg = sut_call("simulate(cgmap)", S.simulate, system, [0], engine=sim.engine("euler"), cgmap=list(c["map"]), **kw)
     d_cg = si.si_floats(cg.data)
@@ -314,8 +321,69 @@ def check_sim(ctx, cc):
                 raise Violation("identity map: sample %d entry %d: plain %r vs coarse-grained %r" % (k // (n * ns), t, a, b), key="sim:identity")
 
 
+def shared_centroid(c, groups):
+    sp = c["sys"]["space"]
+    w, h, d = sp["w"], sp["h"], sp["d"]
+    m = c["map"]
+    cent = {g: (sum((i % w) for i in mem) / len(mem), sum(((i // w) % h) for i in mem) / len(mem),
+                sum((i // (w * h)) for i in mem) / len(mem)) for g, mem in groups.items()}
+    for (i, j) in neighbours_faces(w, h, d):
+        gi, gj = m[i], m[j]
+        if gi >= 0 and gj >= 0 and gi != gj and max(abs(p - q) for p, q in zip(cent[gi], cent[gj])) < 1e-9:
+            return True
+    return False
+
+
+def check_sim_first_sample(ctx, cc, c, system, model, groups, x, dt, eng, mode):
+    """Other engines / initial-state processing modes: the first sample of the coarse-grained run obeys the mode that was
+    asked for (and with the identity map it is the plain run's first sample, same seed)."""
+    n, ns = model.n, model.ns
+    m = c["map"]
+    if eng != "euler" and shared_centroid(c, groups):
+        # distance 0 between connected groups = infinite diffusion constant: the stochastic engines cannot advance time
+        ctx.skip("connected groups share a centroid (degenerate map for a stochastic run)")
+        return
+    ctx.count("engine:%s,mode:%s" % (eng, mode))
+    # only the sample at t = 0 is wanted: t_max = 0 ends every engine after its first step / event
+    kw = dict(sampling_policy="on_t_sample", time_step="%r s" % dt, t_max="0 s", rng_seed=cc["seed"])
+    if mode != "default":
+        kw["init_state_processing"] = mode
+    cg = sut_call("simulate(cgmap)", S.simulate, system, [0], engine=sim.engine(eng), cgmap=list(m), **kw)
+    d = si.si_floats(cg.data)[:n * ns]
+    effective = mode
+    if mode in ("default", "auto"):
+        effective = "none" if eng == "euler" else "redist"
+    for sidx in range(ns):
+        for i in range(n):
+            g = m[i]
+            got = d[sidx * n + i]
+            if g < 0:
+                if got != 0.0:
+                    raise Violation("dropped cell %d holds %r in sample 0" % (i, got), key="sim:sample0-dropped")
+                continue
+            total = sum(x[sidx * n + j] for j in groups[g])
+            if effective == "none":
+                want = total / len(groups[g])
+                if abs(got - want) > 1e-9 * abs(want) + 1e-300:
+                    raise Violation("%s engine, init_state_processing=%r: sample 0, species %d cell %d is %r, the aggregated state spread back "
+                                    "is %r (the state was processed although no processing was asked)" % (eng, mode, sidx, i, got, want),
+                                    key="sim:mode-none")
+            else:
+                whole = got * len(groups[g])
+                if abs(whole - round(whole)) > 1e-6 * max(1.0, abs(whole)):
+                    raise Violation("%s engine, init_state_processing=%r: sample 0, species %d group %d holds %r molecules: not a whole "
+                                    "number (group total before processing %r)" % (eng, mode, sidx, g, whole, total), key="sim:mode-discrete")
+    if cc["identity"]:
+        plain = sut_call("simulate(plain)", S.simulate, system, [0], engine=sim.engine(eng), **kw)
+        dp = si.si_floats(plain.data)[:n * ns]
+        for t, (a, b) in enumerate(zip(dp, d)):
+            if abs(a - b) > 1e-9 * max(abs(a), abs(b)):
+                raise Violation("identity map, %s engine, init_state_processing=%r, seed %d: first sample entry %d is %r in the plain run and %r "
+                                "with the map" % (eng, mode, cc["seed"], t, a, b), key="sim:identity-first-sample")
+
+
 FACETS = [
     Facet("coarsegrain", check_cg, strategy=strat_cg, examples=(480, 12000), shards=(16, 16)),
     Facet("inverse", check_inv, strategy=strat_inv, examples=(320, 8000), shards=(8, 16)),
-    Facet("simulate", check_sim, strategy=strat_sim, examples=(240, 6000), shards=(8, 16), setup=sim.setup_plain),
+    Facet("simulate", check_sim, strategy=strat_sim, examples=(400, 8000), shards=(8, 16), setup=sim.setup_plain),
 ]
